@@ -36,16 +36,16 @@ func c08Body(t *testing.T, s *sim.Scn, o *sim.Outcome) {
 	if !r.start(-1, "C08") {
 		return
 	}
-	l := newLedger(w, n)
+	l := sim.NewLedger(w, n)
 	w.DA.AutoAdvance = true
 	waiting := func() uint64 {
 		var c uint64
 		h := n.Height()
 		for x := ih; x <= h; x++ {
-			_, hok := l.accH[x]
+			_, hok := l.AccH[x]
 			dok := true
-			if empty, err := l.blockEmpty(x); err == nil && !empty {
-				_, dok = l.accD[x]
+			if empty, err := l.BlockEmpty(x); err == nil && !empty {
+				_, dok = l.AccD[x]
 			}
 			if !hok || !dok {
 				c++
@@ -57,7 +57,7 @@ func c08Body(t *testing.T, s *sim.Scn, o *sim.Outcome) {
 	produce := func(i int, what string) bool {
 		hb := n.Height()
 		_, err := r.exec(sim.Op{K: "produce"}, -1)
-		if oracle, msg := l.scan(); oracle != "" {
+		if oracle, msg := l.Scan(); oracle != "" {
 			o.Fail(oracle, "", i, msg, "sound submissions")
 			return false
 		}
@@ -107,7 +107,7 @@ func c08Body(t *testing.T, s *sim.Scn, o *sim.Outcome) {
 			w.DA.SubmitScript = append(w.DA.SubmitScript, sim.SubmitOutcome{Kind: sim.SubPrefix, N: int(op.A), Advance: true})
 		case "subh", "subd":
 			r.exec(op, -1)
-			if oracle, msg := l.scan(); oracle != "" {
+			if oracle, msg := l.Scan(); oracle != "" {
 				o.Fail(oracle, "", i, msg, "sound submissions")
 				return
 			}
